@@ -205,6 +205,129 @@ def check_search(run, db):
     return n
 
 
+def _cmp_atoms(t):
+    """comparison leaves of a conjunction (&, &&)"""
+    t = sym.strip_casts(t)
+    if isinstance(t, dict) and t.get('k') == 'bin' and t['op'] in ('&', '&&'):
+        return _cmp_atoms(t['l']) + _cmp_atoms(t['r'])
+    return [t]
+
+
+def check_range(run, db):
+    """chunk::from - the test that decides whether a released pointer belongs to a chunk - is the half-open interval
+    [list memory, list memory + no_nodes * node_size): one past the last node is not inside"""
+    n = 0
+    roles = {0: 'node', 1: 'node_size'}
+    for f in db.find(cls_t='detail::chunk', short='from'):
+        n += 1
+        inst = '%s [%s]' % (f.display, db.config)
+        site = {'function': 'detail::chunk::from', 'role': 'half-open interval'}
+        S = [s for s in fwd.summarize(f, db=db, roles=roles, no_forward=True) if s.end == 'return']
+        probs = []
+        lower = upper = False
+        if not S or S[0].ret_term is None or len({s.ret for s in S}) != 1:
+            # (a short-circuit && yields several paths that all return the same expression)
+            run.broke('chunk::from has %d returning paths with different results; expected a single interval expression' % len(S))
+            continue
+        for a in _cmp_atoms(S[0].ret_term):
+            c = linear.compare(a, True, roles)
+            if not c:
+                probs.append('`%s` is not a comparison' % sym.canon(a, roles)[:60])
+                continue
+            d, op = c           # d op 0
+            k = d.get('$node', 0)
+            unsigned_diff = any(isinstance(st, dict) and st.get('k') == 'cast' and ('unsigned' in str(st.get('to', '')) or 'size_t' in str(st.get('to', ''))) for st in subterms(a))
+            rest = {x: v for x, v in d.items() if x != '$node'}
+            if k < 0:
+                # base - node (<|<=) 0
+                if op == '<':
+                    probs.append('lower bound is exclusive: the first node of the chunk is not recognised')
+                elif set(rest) == {'this.list_memory()'} and rest['this.list_memory()'] == 1:
+                    lower = True
+                else:
+                    probs.append('lower bound is %s, not the list memory' % linear.fmt(rest))
+            elif k > 0:
+                # node - base - N (<|<=) 0
+                want = {'this.list_memory()': -1, '($node_size * this.no_nodes)': -1}
+                if rest != want:
+                    probs.append('upper bound is [%s], not list memory + no_nodes * node_size' % linear.fmt({x: -v for x, v in rest.items()}))
+                elif op != '<':
+                    probs.append('upper bound is inclusive: the address one past the last node is accepted as a node of the chunk')
+                else:
+                    upper = True
+                    if unsigned_diff:
+                        lower = True     # a single unsigned comparison of node - base covers the lower bound by wrap-around
+        if not probs and not (lower and upper):
+            probs.append('the test does not bound the pointer on both sides (lower=%s, upper=%s)' % (lower, upper))
+        if probs:
+            run.violation('R-DBG.range', inst, f.loc, '; '.join(sorted(set(probs))), site=site)
+        else:
+            run.ok('R-DBG.range', inst, f.loc, 'list_memory() <= node < list_memory() + no_nodes * node_size')
+    return n
+
+
+def check_walk(run, db):
+    """chunk::contains - the double-free test of the small list - visits every free node: it starts at first_free, compares the
+    node's address before following its link, follows the stored index, and stops only at the end marker no_nodes"""
+    n = 0
+    roles = {0: 'node', 1: 'node_size'}
+    for f in db.find(cls_t='detail::chunk', short='contains'):
+        n += 1
+        inst = '%s [%s]' % (f.display, db.config)
+        site = {'function': 'detail::chunk::contains', 'role': 'walks the whole free list'}
+        probs = []
+        npaths = 0
+        for steps in fwd.trace(f, roles=roles, db=db):
+            br = [st for st in steps if st['kind'] == 'br' and not st['assume']]
+            end = [st for st in steps if st['kind'] == 'end']
+            if not end or end[-1]['end'] != 'return':
+                continue
+            npaths += 1
+            ret = sym.canon(end[-1]['ret'], roles) if end[-1]['ret'] is not None else None
+            idx = 'this.first_free'
+            k = 0
+            last = None
+            while k < len(br):
+                c, tk = br[k]['c'], br[k]['taken']
+                want_loop = {'(%s != this.no_nodes)' % idx, '(this.no_nodes != %s)' % idx}
+                if c not in want_loop:
+                    probs.append('the walk tests `%s` where the end-of-list test of index %s is expected' % (c[:70], idx[:40]))
+                    break
+                last = ('loop', tk)
+                k += 1
+                if not tk:
+                    break
+                mem = 'this.node_memory(%s,$node_size)' % idx
+                if k >= len(br):
+                    break
+                c, tk = br[k]['c'], br[k]['taken']
+                if c not in ('($node == %s)' % mem, '(%s == $node)' % mem):
+                    probs.append('free node %s is not compared with the released pointer before its link is followed (`%s`)' % (idx[:40], c[:70]))
+                    break
+                last = ('eq', tk)
+                k += 1
+                if tk:
+                    break
+                idx = '*(%s)' % mem
+            if k < len(br) and not probs:
+                probs.append('tests after the walk decided: %s' % br[k]['c'][:60])
+            if not probs:
+                if last == ('eq', True) and ret != 'true':
+                    probs.append('the node was found on the free list but the function returns %s' % ret)
+                if last == ('loop', False) and ret != 'false':
+                    probs.append('the end of the free list was reached but the function returns %s' % ret)
+                if last in (('loop', True), ('eq', False)) and ret is not None:
+                    probs.append('returns %s in the middle of the walk' % ret)
+        if npaths < 3:
+            run.broke('chunk::contains: only %d returning path(s) traced' % npaths)
+            continue
+        if probs:
+            run.violation('R-DBG.walk', inst, f.loc, '; '.join(sorted(set(probs))[:2]), site=site)
+        else:
+            run.ok('R-DBG.walk', inst, f.loc, 'first_free -> compare -> follow link -> ... until no_nodes (%d paths)' % npaths)
+    return n
+
+
 def check_handler(run, db):
     n = 0
     pc = build.CONFIGS[db.config]['FOONATHAN_MEMORY_DEBUG_POINTER_CHECK']
@@ -259,6 +382,8 @@ def run(run):
     run.rule('R-DBG.first', 'checks precede the first state change', floor=4)
     run.rule('R-DBG.cond', 'check conditions are about the offending pointer, in normal form', floor=4)
     run.rule('R-DBG.search', 'ordered-list search: membership test; exempt paths are the strict-order ones', floor=2)
+    run.rule('R-DBG.range', 'chunk membership is the half-open interval of its nodes', floor=1)
+    run.rule('R-DBG.walk', 'the small list\'s double-free test visits every free node', floor=1)
     run.rule('R-DBG.handler', 'checks reach the registered handler iff the condition is false', floor=6)
     run.explanation = ('Analysed in the Debug configuration (these functions do not exist in the pinned build). memory_stack::unwind is covered by C06 R-UNWIND.top. '
                        'Not decided: that valid releases never trigger a report (needs the list invariants).')
@@ -271,3 +396,5 @@ def run(run):
             run.broke('find_pos / find_pos_interval not found [%s]' % cfg)
         if check_handler(run, db) < 3:
             run.broke('debug check helpers not found [%s]' % cfg)
+        if check_range(run, db) < 1 or check_walk(run, db) < 1:
+            run.broke('chunk::from / chunk::contains not found [%s]' % cfg)
